@@ -23,6 +23,28 @@ CHECKS = {
              "generated space; trusted: the reference semantics' reading of the docs, TLC, Json/IOUtils, CPython",
         ref="DESIGN.md section 6 C01",
     ),
+    "C04": dict(
+        engine="LiquidSem",
+        technique="taint bit on every string of the TLA+ reference semantics (LiquidValues.safe through LiquidFilters/LiquidSem); TLC invariant "
+                  "NoRawUnsafe over the generated programs of the escape focus; every exported behaviour replayed with auto-escape on and its output scanned",
+        text="TLC checks on the reference semantics that no program of the escape focus (data saturated with < > & ' \" - raw, percent-encoded, "
+             "entity-encoded, in arrays/hashes, as filter arguments and separators - through filter chains of length <=2, captures, partials, macros, "
+             "loops, cycles, template strings, ternaries) outputs a significant character outside entities/engine markup; the library must produce the "
+             "model's text for the modelled filters and a clean output for every built-in filter (inputs-only variant)",
+        note="bounded pools (spec/MC_Escape.tla); literals carry no significant character and `safe` is not used (the property's quantifier); "
+             "custom filters and user Markup subclasses are outside",
+        ref="DESIGN.md section 6 C04",
+    ),
+    "C19": dict(
+        engine="LiquidFilters",
+        technique="filter laws stated over the TLA+ filter semantics (LiquidFilters.tla) and checked by TLC over enumerated argument tuples; "
+                  "every (filter, input, argument) application exported by TLC replayed through the library (template and direct call)",
+        text="TLC enumerates argument tuples per filter (strings incl. empty/unicode placeholders, arrays with duplicates/nil/mixed order, hashes, "
+             "ints) and checks permutation/ordering/partition/inverse/idempotence laws on the model (MC_Filters laws); each application is then "
+             "evaluated by the library through a template and must equal the model's value (MC_Filters apps)",
+        note="bounded argument pools; floats/decimal arithmetic and date are outside the model (UNSPECIFIED.md)",
+        ref="DESIGN.md section 6 C19",
+    ),
     "C18": dict(
         engine="LiquidSem",
         technique="TLC invariant WsOnly on the reference semantics over all marker assignments + S->C replay of every exported behaviour",
